@@ -104,6 +104,11 @@ func (b proxyBuilder) out(ft reflect.Type, results []interface{}, err error) (ou
 		m = n
 	}
 	for i := 0; i < m; i++ {
+		if results[i] == nil {
+			// a nil result for an interface{} slot: reflect.ValueOf(nil) is the invalid Value and MakeFunc would panic
+			out[i] = reflect.Zero(ft.Out(i))
+			continue
+		}
 		out[i] = reflect.ValueOf(results[i])
 	}
 	for i := m; i < n; i++ {
